@@ -452,6 +452,14 @@ def e2eDirect (signs : String) (rest : List String) : Option String := do
   let mut out : Array String := #[]
   for o in ops do
     match o.splitOn "," with
+    | "raw" :: toks =>
+      -- traffic that comes from none of the controllers: one bus step between two operations
+      let m ← parseMsg (String.intercalate "," toks)
+      match busStep b m with
+      | .error _ => return "PANIC"
+      | .ok (b', r) =>
+        b := b'
+        out := out.push ("raw:" ++ showReply r)
     | [op, a, t, items] =>
       let p ← ctrlProg op (← parseType t) (← parseU16 a) (← parseItems items) 8
       let (r, b') := runOnBus p b
@@ -472,6 +480,8 @@ def handle (line : String) : String :=
       pure (hexOfBytes (enc ⟨← parseU16 a, ← parseU8 ty, ← parseHex d⟩))
   | ["encnl", a, ty, d] => orBad do
       pure (hexOfBytes (encNL ⟨← parseU16 a, ← parseU8 ty, ← parseHex d⟩))
+  | ["fshow", a, ty, d] => orBad do
+      pure (hexOfBytes (Frame.display ⟨← parseU16 a, ← parseU8 ty, ← parseHex d⟩))
   | ["dec", d] => orBad do
       match dec (← parseHex d) with
       | .ok f => pure ("ok " ++ showFrame f)
@@ -511,6 +521,7 @@ def handle (line : String) : String :=
   | ["soak", "enc", count] => orBad do
       -- the codec is a function: encoding the same frame again and again changes nothing (521 characters each time)
       pure s!"ok {(← count.toNat?) * (enc ⟨0x0102, 0, (List.range 255).map UInt8.ofNat⟩).length}"
+  | ["portctor", _which] => "fine"   -- the model's only constructors are the `try_new`s, which all run `configurePort`
   | ["datagrow", _way] => "fits"   -- the model's data block has no mutable access: it stays what `Data.tryNew` admitted
   | ["datafrom", n] => orBad do
       -- whatever conversions into a data block the library offers, none yields more than 255 bytes
